@@ -135,9 +135,28 @@ def oracle_one(args):
 
 def targeted(rng):
     """Hand-shaped programs for the weak spots found while reading the code."""
-    k = rng.randrange(10)
+    k = rng.randrange(12)
     lit = lambda: rng.choice([0, 1, 2, 3, 5])
     S = c09gen.S
+    if k >= 10:     # a counter that reaches the effects only through a NON-LAST index of the target
+        sigk = k == 10
+        tgt = "out0" if sigk else "t"
+        pos = rng.randrange(2)          # which index position carries the counter
+        idx = [("var", "row"), ("var", "k")] if pos == 0 else [("var", "k"), ("var", "row")]
+        inner = S("sigassign", "out0", idx, rng.choice(["<==", "<--"]), ("idx", "in0", [("var", "i"), ("var", "k")])) if sigk \
+            else S("assign", "t", idx, "=", ("idx", "in0", [("var", "i"), ("var", "k")]))
+        body = [S("sigdecl", "input", "in0", [("num", 2), ("num", 2)]), S("sigdecl", "output", "out0", [("num", 2), ("num", 2)]),
+                S("decl", "row", [], ("num", 0))]
+        if not sigk:
+            body += [S("decl", "t", [("num", 2), ("num", 2)], None), S("assign", "t", [("num", 0), ("num", 0)], "=", ("num", 0))]
+        body += [S("for", S("decl", "i", [], ("num", 0)), ("bin", "<", ("var", "i"), ("var", "n")), S("incr", "i", "++"),
+                   [S("for", S("decl", "k", [], ("num", 0)), ("bin", "<", ("var", "k"), ("var", "m")), S("incr", "k", "++"), [inner]),
+                    S("assign", "row", [], "=", ("bin", "+", ("var", "row"), ("num", 1)))])]
+        if not sigk:
+            body.append(S("sigassign", "out0", [("num", 1), ("num", rng.randrange(2))], "<--",
+                          ("idx", "t", [("num", 1), ("num", rng.randrange(2))])))
+        return {"kind": "template", "name": "T", "params": ["n", "m"], "body": body, "sig_in": [("in0", (2, 2))],
+                "features": ["t-multi-index"]}
     sig = [S("sigdecl", "input", "in0", []), S("sigdecl", "output", "out0", [])]
     if k == 0:      # a constraint with a single name tainted by an input
         body = sig + [S("decl", "x", [], ("bin", "+", ("var", "in0"), ("num", lit()))), S("ceq", ("var", "x"), ("num", lit())),
